@@ -1680,6 +1680,9 @@ pub unsafe fn abi_entry_light<T: AbiExportable + ?Sized>(flag: AbiProtocol) {
                     let temp;
                     if let Some(err) = err.downcast_ref::<&str>() {
                         msg = err;
+                    } else if let Some(err) = err.downcast_ref::<String>() {
+                        // panic!("..{}..", x) carries a String payload
+                        msg = err;
                     } else {
                         temp = format!("{:?}", err);
                         msg = &temp;
@@ -1782,6 +1785,9 @@ pub unsafe fn abi_entry<T: AbiExportableImplementation>(flag: AbiProtocol) {
                     let msg: &str;
                     let temp;
                     if let Some(err) = err.downcast_ref::<&str>() {
+                        msg = err;
+                    } else if let Some(err) = err.downcast_ref::<String>() {
+                        // panic!("..{}..", x) carries a String payload
                         msg = err;
                     } else {
                         temp = format!("{:?}", err);
